@@ -417,7 +417,7 @@ fn main() {
 
     if args.replay.is_none() {
         let mut rng = Rng::new(args.seed);
-        let (n_big, n_small) = if args.thorough() { (150, 12_000) } else { (24, 2_000) };
+        let (n_big, n_small) = if args.thorough() { (80, 8_000) } else { (24, 2_000) };
         for _ in 0..n_big {
             let mut r = rng.fork();
             cases.push(big_case(&mut r, args.thorough()));
